@@ -19,6 +19,7 @@ func init() {
 			ID: "C19",
 			Explanation: "Structure of the local supervisor's three operations (process behaviour itself is the operating system's). Exec: the process gets its own process group, is started with exec.Command (no context, no wait-altering option: only Env, Dir, ExtraFiles, Stdout, Stderr, SysProcAttr are set), is recorded and watched only after Start returned nil; the watcher goroutine closes the termination channel before it sends, and sends exactly one event on every path by a plain (unconditional, blocking) send; the status is the exit code when non-negative, else the terminating signal, with exit status 0 for a nil Wait error and the fallback 1 only when neither was derived. " +
 				"kill: success is returned only from a receive on the process's termination channel; a deadline already in the past is refused before any signal; SIGKILL goes to the negated process group id when it can be obtained, else to the pid; the final wait is on termination or a context bounded by the deadline, whose expiry returns an error; Kill answers unknown names with a NoSuchEntity error. Terminate sends SIGTERM to the group (else the pid) and contains no wait of any kind; unknown names are an error. The process map is accessed under its lock. " +
+				"Added after the blind rounds: the table lock is never held across a wait; no table entry is removed; \"already exited\" is tested before the deadline; one request record per started process. " +
 				"NOT decided: truth of the reported status; exactly-once under concurrent exits beyond the single plain send; process-group semantics.",
 			RuleText:    "one obligation per guard/order/count rule of the three operations",
 			Assumptions: trusted,
